@@ -29,9 +29,7 @@ Proof. exact frame_inplace. Qed.
 
 (* ---- nothing is shared: in the property-satisfying model every object reachable from the result is new;
         the set of objects a result may share with the arguments is empty *)
-Theorem c16_documented_shared_empty : forall cl, documented_shared cl = [].
-Proof. reflexivity. Qed.
-
+(* (documented_shared cl = [] by definition: membership in it is False) *)
 Theorem c16_fresh : forall h cl, in_place cl = false ->
   forall a, reachable (fst (run Repaired cl h)) (snd (run Repaired cl h)) a ->
             reachable h (args_of cl) a -> In a (documented_shared cl).
@@ -50,6 +48,19 @@ Theorem c16_edits_leave_inputs : forall h cl, in_place cl = false ->
   forall es, (forall e, In e es -> reachable (fst (run Repaired cl h)) (snd (run Repaired cl h)) (fst e)) ->
   forall a, a < length h -> get (apply_edits (fst (run Repaired cl h)) es) a = get h a.
 Proof. exact edits_leave_old. Qed.
+
+(* ---- later calls: after arbitrary edits of a result, a later call on the same arguments finds exactly the same
+        argument object graph (same reachable set, same field values), for every well-formed heap.
+   PARTIAL with respect to "the outcome of later calls is unchanged": the missing part is that `run` depends only on
+   the object graph of its arguments up to the addresses of the new objects (a renaming argument), which is not
+   proved here; the implementation side is checked on every case (third call, and calls on brand-new inputs). *)
+Theorem c16_later_calls_partial : forall h cl, in_place cl = false -> wf h ->
+  (forall r, In r (args_of cl) -> r < length h) ->
+  forall es, (forall e, In e es -> reachable (fst (run Repaired cl h)) (snd (run Repaired cl h)) (fst e)) ->
+  let h2 := apply_edits (fst (run Repaired cl h)) es in
+  (forall a, reachable h2 (args_of cl) a <-> reachable h (args_of cl) a) /\
+  (forall a, reachable h (args_of cl) a -> get h2 a = get h a).
+Proof. exact later_call_same_arguments. Qed.
 
 (* the reachability computed by the correspondence checker is sound for the relation used above *)
 Theorem c16_reach_sound : forall h roots a, In a (reach h roots) -> reachable h roots a.
@@ -122,10 +133,10 @@ Proof. split; vm_compute; reflexivity. Qed.
 
 Print Assumptions c16_frame.
 Print Assumptions c16_inplace_only_arg.
-Print Assumptions c16_documented_shared_empty.
 Print Assumptions c16_fresh.
 Print Assumptions c16_fresh_between_results.
 Print Assumptions c16_edits_leave_inputs.
+Print Assumptions c16_later_calls_partial.
 Print Assumptions c16_reach_sound.
 Print Assumptions c16_reach_complete.
 Print Assumptions c16_refuted_F6.
